@@ -730,7 +730,7 @@ pub fn run_conc_case(case: &ConcCase, stall_window: Duration) -> ConcRun {
 /// current deadline lies in the future.
 pub fn f10_witness() -> Option<Failure> {
     thread_local! { static SLOW: std::cell::Cell<bool> = std::cell::Cell::new(false); }
-    let cfg = Cfg { counters: 100, capacity: 16, max_weight: 4000, shards: 2, cmd_buf: 8, pool: 1, buf: 4, tick_us: 500, hash: HashMode::Identity, weight_mode: WeightMode::Table(vec![8]), start_ns: 0, noise_readers: 0 };
+    let cfg = Cfg { counters: 100, capacity: 16, max_weight: 4000, shards: 2, cmd_buf: 8, pool: 1, buf: 4, tick_us: 500, hash: HashMode::Identity, weight_mode: WeightMode::Table(vec![8]), start_ns: 0, noise_readers: 0, prelude: None };
     let inst = Instance::new();
     let start = BASE_SECS * 1_000_000_000;
     let clock = HClock::new(start);
@@ -772,7 +772,7 @@ pub fn f10_witness() -> Option<Failure> {
 /// in place (so the worker's delete does not wait for the sweeper's shard lock), deletes the key and puts it again. The
 /// sweeper's removal of the *old* incarnation must not remove the new one. Returns a failure if the new incarnation is lost.
 pub fn sweep_vs_reput_scenario(delay_ms: u64) -> Option<Failure> {
-    let cfg = Cfg { counters: 100, capacity: 16, max_weight: 4000, shards: 2, cmd_buf: 8, pool: 1, buf: 4, tick_us: 300, hash: HashMode::Identity, weight_mode: WeightMode::Table(vec![8]), start_ns: 0, noise_readers: 0 };
+    let cfg = Cfg { counters: 100, capacity: 16, max_weight: 4000, shards: 2, cmd_buf: 8, pool: 1, buf: 4, tick_us: 300, hash: HashMode::Identity, weight_mode: WeightMode::Table(vec![8]), start_ns: 0, noise_readers: 0, prelude: None };
     let inst = Instance::new();
     let start = BASE_SECS * 1_000_000_000;
     let clock = HClock::new(start);
